@@ -135,6 +135,11 @@ func judge(r *ev.Run, G *gprops, gs *gstats, ver, level int, s string) (recv any
 		// the encoding obligations hold for every vector the library accepts
 		checkEncodeLoose(r, ver, level, s, obj)
 	}
+	if accepted && !v.Accept && obj != nil && G.decOn && G.dec.fields {
+		// C09 speaks of every ACCEPTED vector: a string the library accepts although the reference
+		// rejects it still owes "each field holds the value written for it"
+		checkFieldsLoose(r, ver, level, s, obj)
+	}
 	if accepted && v.Accept && obj != nil {
 		c := &dcase{ver: ver, level: level, s: s, tok: v.Tokens, verLabel: v.Ver}
 		if G.decOn {
@@ -169,6 +174,52 @@ func checkEncodeLoose(r *ev.Run, ver, level int, s string, obj any) {
 	}
 	if a, b := observables(obj), observables(again); a != b {
 		r.Violate(ev.Violation{Kind: "decode-encode-decode", Case: with(cs, "encoding", ob.Enc), Observed: b, Expected: a})
+	}
+}
+
+// checkFieldsLoose: for a string the library accepts although it is not a well-formed vector: every
+// token "name:value" whose name is a metric of the decoder's level (and occurs once) must have left
+// exactly the value it spells in the field of that name; a value text that is no code of the
+// metric cannot have been stored faithfully at all.
+func checkFieldsLoose(r *ev.Run, ver, level int, s string, obj any) {
+	count := map[string]int{}
+	toks := strings.Split(s, "/")
+	for _, tk := range toks {
+		if p := strings.Split(tk, ":"); len(p) == 2 {
+			count[p[0]]++
+		}
+	}
+	for _, tk := range toks {
+		p := strings.Split(tk, ":")
+		if len(p) != 2 || count[p[0]] != 1 {
+			continue
+		}
+		var m *spec.Metric
+		for i, mm := range spec.Metrics(ver) {
+			if mm.Name == p[0] && mm.Level <= level {
+				m = &spec.Metrics(ver)[i]
+			}
+		}
+		if m == nil {
+			continue
+		}
+		got, ok := lib.Field(obj, m.Name)
+		if !ok {
+			continue
+		}
+		en := lib.EnumOf(ver, m.Name)
+		want, isCode := 0, false
+		for i, c := range en.Codes {
+			if c.Code == p[1] {
+				want, isCode = en.Consts[i], true
+			}
+		}
+		switch {
+		case !isCode:
+			r.Violate(ev.Violation{Kind: "accepted-vector-field-not-as-written", Case: strCase(ver, level, s), Observed: fmt.Sprintf("%s holds %d (prints %q) although the vector writes %q, which is no code of the metric", m.Name, got, en.Str(got), p[1]), Expected: "a field equal to the value written (the property speaks of every accepted vector)", GoTest: strTest(ver, level, s)})
+		case got != want:
+			r.Violate(ev.Violation{Kind: "accepted-vector-field-not-as-written", Case: strCase(ver, level, s), Observed: fmt.Sprintf("%s holds %d (prints %q)", m.Name, got, en.Str(got)), Expected: fmt.Sprintf("%d, the value written (%q)", want, p[1]), GoTest: strTest(ver, level, s)})
+		}
 	}
 }
 
